@@ -259,8 +259,8 @@ func (i *Interpreter) ProcessFunctionCallExpression(exp *ast.FunctionCallExpress
 			return value.Null, exception.Runtime(
 				&sub.GetMeta().Token,
 				"subroutine %s has invalid return type %s",
-				sub.Name,
-				sub.ReturnType,
+				sub.Name.Value,
+				sub.ReturnType.Value,
 			)
 		}
 		// Functional subroutine may change status
